@@ -34,7 +34,7 @@ def plan(tier, seed):
     if tier == "quick":
         return [{"bfs": {"n": 3, "depth": 5}, "random": 400}]
     return [{"bfs": {"n": 3, "depth": 9}, "random": 0}, {"bfs": {"n": 4, "depth": 5}, "random": 0}] + \
-           [{"bfs": None, "random": 12000, "salt": i} for i in range(14)]
+           [{"bfs": None, "random": 12000, "salt": i} for i in range(14)] + [{"bfs": None, "random": 0, "repo_tests": True}]
 
 
 # ---- state ----------------------------------------------------------------------------------------
@@ -290,6 +290,10 @@ def random_history(ctx, hist_no):
 
 
 def run(ctx, params):
+    if params.get("repo_tests"):
+        from vlib import repotests
+        repotests.run(ctx, PROPERTY)
+        return
     if params["bfs"]:
         with ctx.guard(3000.0):
             bfs(ctx, params["bfs"]["n"], params["bfs"]["depth"])
@@ -299,6 +303,12 @@ def run(ctx, params):
 
 
 def replay(ctx, witness):
+    if "repo_test" in witness:
+        from vlib import repotests
+        repotests.run(ctx, PROPERTY)
+        ctx.distinct(1)
+        ctx.distinct(2)
+        return
     n = witness["n"]
     if witness["init"] == "separate":
         nodes = [Node("n") for _ in range(n)]
